@@ -17,6 +17,7 @@ import (
 	config "github.com/TheCacophonyProject/go-config"
 	"github.com/TheCacophonyProject/lepton3"
 	"github.com/TheCacophonyProject/thermal-recorder/recorder"
+	"github.com/TheCacophonyProject/thermal-recorder/throttle"
 	zz "github.com/TheCacophonyProject/thermal-recorder/zzverif"
 	"github.com/TheCacophonyProject/window"
 
@@ -26,14 +27,15 @@ import (
 func init() { log.SetOutput(io.Discard) }
 
 type aCfg struct {
-	W, H, Fps, Edge            int
-	Preview, MinS, MaxS, Trig  int
-	Motion                     config.ThermalMotion
-	Exact                      bool // detector configured so that any motion bit string is realisable
-	NoWindow                   bool
-	WinStart, WinStop          int // minutes
-	Cont                       bool
-	Base                       uint16
+	W, H, Fps, Edge           int
+	Preview, MinS, MaxS, Trig int
+	Motion                    config.ThermalMotion
+	Exact                     bool // detector configured so that any motion bit string is realisable
+	NoWindow                  bool
+	WinStart, WinStop         int // minutes
+	Cont                      bool
+	Thr                       *config.ThermalThrottler // non-nil: the real ThrottledRecorder sits between processor and motion sink
+	Base                      uint16
 }
 
 func (c *aCfg) params() zz.RecParams {
@@ -48,28 +50,29 @@ type aEvent struct {
 	CreateOK bool
 	BadX     int
 	BadY     int
-	JumpMin  int      // absolute wall-clock jump target (minute of day), with Dt == -1
+	JumpMin  int // absolute wall-clock jump target (minute of day), with Dt == -1
 	JumpK    int
-	UpJumpMs uint32   // camera uptime jumps forward by this much before the frame
-	BZ       int      // number of border pixels set to zero (must not matter)
-	FFC      bool     // an FFC happens just before this frame
+	UpJumpMs uint32     // camera uptime jumps forward by this much before the frame
+	BZ       int        // number of border pixels set to zero (must not matter)
+	FFC      bool       // an FFC happens just before this frame
 	Pix      [][]uint16 // explicit content (detector-focused scenarios); nil → generated
 	Tel      *zz.Tel
 }
 
 type aScenario struct {
-	Cfg    aCfg
-	Start  time.Time
-	Ev     []aEvent
-	Plans  [3]zz.FaultPlan
-	Focus  string
+	Cfg   aCfg
+	Start time.Time
+	Ev    []aEvent
+	Plans [3]zz.FaultPlan
+	Focus string
 }
 
 type aOpts struct {
-	NoTest bool // drop test-recording requests
-	NoCont bool // run without the continuous recorder
-	SkipEv int  // index of an event to leave out (-1 none)
-	After  func(i int, w *aWorld) // called after every executed event with its trace index (in-package observations)
+	NoTest     bool                   // drop test-recording requests
+	NoCont     bool                   // run without the continuous recorder
+	NoThrottle bool                   // run without the throttle even if configured
+	SkipEv     int                    // index of an event to leave out (-1 none)
+	After      func(i int, w *aWorld) // called after every executed event with its trace index (in-package observations)
 }
 
 // genRecScenario draws a recorder-focused scenario. focus biases the generator
@@ -242,14 +245,14 @@ type aWorld struct {
 	win   zz.WinModel
 	cam   zz.Cam
 	// scene state
-	blob   bool
-	nextID int
-	ord    int
-	upMs   uint32
+	blob      bool
+	nextID    int
+	ord       int
+	upMs      uint32
 	lastFFCMs uint32
-	sent   map[int][][]uint16
-	kind   map[int]byte
-	tels   map[int]zz.Tel
+	sent      map[int][][]uint16
+	kind      map[int]byte
+	tels      map[int]zz.Tel
 }
 
 func newAWorld(sc *aScenario, opt aOpts) *aWorld {
@@ -278,12 +281,20 @@ func newAWorld(sc *aScenario, opt aOpts) *aWorld {
 		cont = w.sinks[zz.SinkCont]
 	}
 	mc := c.Motion
+	var motionRec recorder.Recorder = w.sinks[zz.SinkMotion]
+	if c.Thr != nil && !opt.NoThrottle {
+		motionRec = throttle.NewThrottledRecorderWithClock(w.sinks[zz.SinkMotion], c.Thr, c.MinS+c.Preview, &thrListener{w.tr}, w.clock, w.cam)
+	}
 	w.mp = NewMotionProcessor(lepton3.ParseRawFrame, &mc, rc, &config.Location{}, &zz.Listener{T: w.tr},
-		w.sinks[zz.SinkMotion], w.cam, cont, w.sinks[zz.SinkTest])
+		motionRec, w.cam, cont, w.sinks[zz.SinkTest])
 	w.upMs = 60000
 	w.lastFFCMs = 1000
 	return w
 }
+
+type thrListener struct{ t *zz.Trace }
+
+func (l *thrListener) WhenThrottled() { l.t.Cur().Throttled++ }
 
 func hhmm(m int) string { return fmt.Sprintf("%02d:%02d", m/60, m%60) }
 
